@@ -151,6 +151,13 @@ def make_monitor(w):
         if op is None:
             return None
         st["steps"][ch] = st["steps"].get(ch, 0) + 1
+        if st.get("last_ch") != ch:
+            # the simulated processes share one interpreter and with it bzrformats' process-wide CHK page
+            # cache: drop it whenever another process gets to run, so that no process is served pages
+            # another one read (for the process itself this is an ordinary LRU eviction)
+            from bzrformats import chk_map
+            chk_map.clear_cache()
+            st["last_ch"] = ch
         if op.kind in ("get", "readv") and op.path == REPO + "pack-names":
             st["seen"].setdefault(ch, set()).update(st["names"] or ())
         # every executed op (private, non-scheduling ones included) is in sim.ops
